@@ -182,7 +182,7 @@ CHECKS["C19"] = dict(
     design_ref="DESIGN.md §6 C19")
 
 CHECKS["C03"] = dict(
-    technique="Lean 4 proof: validate <-> SpecHeader /\\ SpecRule for all Int headers and all payload strings over tables regenerated from /repo and kernel-checked equal to a frozen reference spec; rule-class semantics, monotonicity, totality; exhaustive header-space correspondence against the real Message.validate; independent JSON-spec oracle",
+    technique="Lean 4 proof: validate <-> SpecHeader /\\ SpecRule for all Int headers and all payload strings over tables regenerated from /repo and kernel-checked equal to a frozen reference spec; rule-class semantics, monotonicity, totality; exhaustive header-space correspondence against the real Message.validate; independent JSON-spec oracle; corpus and child-schema cases repeated in processes that have built the tables of all five versions",
     text="tables_eq_spec (decide +kernel per version), header_iff, rule_semantics (+ per-class clauses), monotone, total_rules, "
          "validate_iff. The translator output is re-proved equal to spec/serial_api.json on every run, so a dropped row, a shifted "
          "range or a changed validator is a broken obligation; the harness then finds the concrete line with the spec oracle.",
